@@ -526,6 +526,21 @@ func (c *Ctx) FuncOpt(pkgRel, recv, name string) *FuncInfo {
 			return &FuncInfo{Pkg: p, Decl: fd, Obj: obj}
 		}
 	}
+	// an unexported helper keeps its role when it is turned from a method into a plain function or
+	// the reverse (its receiver was not used): the only function of that name in the package
+	if name != "" && !ast.IsExported(name) {
+		var only *FuncInfo
+		n := 0
+		for obj, fd := range c.declOf {
+			if c.declPkg[obj] == p && obj.Name() == name && fd.Body != nil {
+				only = &FuncInfo{Pkg: p, Decl: fd, Obj: obj}
+				n++
+			}
+		}
+		if n == 1 {
+			return only
+		}
+	}
 	return nil
 }
 
